@@ -19,6 +19,9 @@ var (
 	// underlying stream ended unexpectedly. Callers can treat this as a signal that
 	// the value log should be truncated at the last known-good offset.
 	ErrPartialEntry = errors.New("kv: partial entry")
+	// ErrBadHeader indicates that the bytes at the start of a record are not a
+	// well-formed entry header (overflowing varint or meta field).
+	ErrBadHeader = errors.New("kv: malformed entry header")
 )
 
 var crc32Pool = sync.Pool{
@@ -80,7 +83,28 @@ func (h EntryHeader) Encode(out []byte) int {
 func (h *EntryHeader) DecodeFrom(reader *HashReader) (int, error) {
 	start := reader.BytesRead
 	readVarint := func() (uint64, error) {
-		return binary.ReadUvarint(reader)
+		// like binary.ReadUvarint, but an overflowing varint is reported as ErrBadHeader
+		// so that callers can tell garbage from an I/O error.
+		var x uint64
+		var s uint
+		for i := 0; i < binary.MaxVarintLen64; i++ {
+			b, err := reader.ReadByte()
+			if err != nil {
+				if i > 0 && err == io.EOF {
+					err = io.ErrUnexpectedEOF
+				}
+				return x, err
+			}
+			if b < 0x80 {
+				if i == binary.MaxVarintLen64-1 && b > 1 {
+					return x, fmt.Errorf("%w: varint overflows a 64-bit integer", ErrBadHeader)
+				}
+				return x | uint64(b)<<s, nil
+			}
+			x |= uint64(b&0x7f) << s
+			s += 7
+		}
+		return x, fmt.Errorf("%w: varint overflows a 64-bit integer", ErrBadHeader)
 	}
 
 	klen, err := readVarint()
@@ -100,7 +124,7 @@ func (h *EntryHeader) DecodeFrom(reader *HashReader) (int, error) {
 		return reader.BytesRead - start, err
 	}
 	if meta > math.MaxUint8 {
-		return reader.BytesRead - start, fmt.Errorf("entry header meta overflow: %d", meta)
+		return reader.BytesRead - start, fmt.Errorf("%w: entry header meta overflow: %d", ErrBadHeader, meta)
 	}
 	h.Meta = byte(meta)
 
